@@ -122,23 +122,10 @@ func vH_FP_scan(data []byte) {
 	}
 	vReach("C04.scan-ok")
 	vAssert(p == end, "C04.scan-length")
-	rneg, rmant, nmant, intDigits, dropped, e, eneg := vfRefDecompose(data, end)
-	vAssert(neg == rneg, "C04.scan-sign")
-	vAssert(mant == rmant, "C04.scan-mantissa")
-	vAssert(trunc == dropped, "C04.scan-trunc")
-	if rmant != 0 {
-		want := intDigits - nmant
-		if eneg {
-			want -= e
-		} else {
-			want += e
-		}
-		if e < 10000 {
-			vAssert(exp == want, "C04.scan-exponent")
-		} else {
-			vAssert((exp < -9000) == eneg && (exp > 9000) == !eneg, "C04.scan-huge-exponent")
-		}
-	}
+	// the interface between the scanner and the conversion tiers, stated on values: the
+	// (mantissa, exponent, truncated) triple denotes the literal exactly, or brackets it from
+	// below when digits were dropped (decided in integer arithmetic by the executor)
+	vAssertScanValue(data[:end], mant, exp, neg, trunc, "C04.scan-value")
 }
 
 // ---- C04 tier 2: the exact floating-point path ------------------------------
